@@ -27,6 +27,7 @@ PROP = "C08"
 KF_STALE = "stale-id-after-bridging-capture"
 KF_SNAPREUSE = "snapshot-forgets-closed-tcp-4tuple"
 KF_QUEUED = "queued-payload-flushed-but-not-written"
+KF_DGAP = "snapshot-changes-flush-order-double-gap"
 REGIMES = ["plain", "dup", "reorder", "udp-only", "udp-collide", "udp-reuse", "udp-reuse", "tcp-only", "tcp-reuse-late", "mixed", "tiecut", "udp-bucket", "udp-bucket"]
 
 
@@ -252,6 +253,23 @@ def classify(cs, label, run_res, ref_canon, steps_of=None):
         errs2, left = oracle_run(run_res, ref_canon, allow_leftover=True)
         if not errs2 and left:
             return "known:" + KF_STALE, errs
+    if getattr(cs, "dgap", None) and label.startswith("snap"):
+        # capture gaps in BOTH directions of a connection: only the order of the flushed direction runs may differ
+        eps = {frozenset([c.client, c.server]) for c in cs.convs if c.cid in cs.dgap}
+
+        def on_dgap(s):
+            return s["proto"] == "TCP" and frozenset([s["client"], s["server"]]) in eps
+
+        def flat(s):
+            return (s["proto"], s["client"], s["server"], tuple(s["pk"]),
+                    b"".join(b for d, b in s["runs"] if d == "c"), b"".join(b for d, b in s["runs"] if d == "s"))
+        errs2, _ = oracle_run(run_res, ref_canon, ignore=on_dgap)
+        mine = sorted(flat(s) for s in run_res["steps"][-1]["streams"].values() if on_dgap(s))
+        theirs = sorted((x[0], x[1], x[2], x[3], b"".join(bytes.fromhex(h) for d, h in x[4] if d == "c"),
+                         b"".join(bytes.fromhex(h) for d, h in x[4] if d == "s")) for x in ref_canon
+                        if on_dgap({"proto": x[0], "client": x[1], "server": x[2]}))
+        if not errs2 and mine == theirs:
+            return "known:" + KF_DGAP, errs
     if cs.regime == "lossy" and getattr(cs, "lossy", None):
         eps = {frozenset([c.client, c.server]) for c in cs.convs if c.cid in cs.lossy}
 
@@ -377,6 +395,8 @@ def main(tier, seed, replay=None):
             for fn in sorted(os.listdir(cdir)):
                 if fn.endswith(".json"):
                     o = json.load(open(os.path.join(cdir, fn)))
+                    if o.get("only_if_known") and o["only_if_known"] not in known_ids:
+                        continue        # witness of a finding that is not (yet) listed: reported in notes/C08.md
                     (snap_sets if o.get("snap_overlay") else plain_sets).append(set_from_json(o["set"]))
         n_main, n_ooo, n_snap, n_snapreuse, n_bulk = (150, 70, 100, 12, 0) if tier == "quick" else (800, 300, 500, 40, 2)
         for i in range(n_main):
@@ -530,6 +550,7 @@ def main(tier, seed, replay=None):
             if len(samples) < 4 and not bad:
                 samples.append({"regime": cs.regime, "overlay": tag, "files": cs.files, "packets": len(cs.packets), "runs": [[l, se, st] for l, se, st in runs][:4]})
     what = {KF_STALE: "out-of-order arrival: a later-arriving capture bridges two already indexed runs of one flow; the second run's id stays visible beside the rewritten first one",
+            KF_DGAP: "a connection with capture gaps in both directions: whether a snapshot is used changes which inactivity flush emits the queued payload, hence the order of the direction runs (same bytes per direction)",
             KF_QUEUED: "TCP payload queued behind a capture gap is emitted by the inactivity flush of a later import that does not rewrite the stream: batched import lacks bytes the one-shot import shows",
             KF_SNAPREUSE: "snapshot availability changes the result when a TCP 4-tuple is reused within 5 minutes of its close (with a snapshot the closed connection is forgotten and the new one is indexed; without, it is swallowed)"}
     for slug, where in sorted(kf_seen.items()):
